@@ -621,18 +621,24 @@ PROPS = {
     ),
     "C04": dict(
         retry_on_failure=True,
-        suites=["c04"],
+        suites=["c04", "c04live"],
         judge=judge_c04,
         level="proof",
         rule="every single rule over 13 CIDR spellings (valid v4/v6, /0, /32, host bits set, mapped /104, malformed) x 18 patterns "
              "(prefix, upper case, prefix/mask equal, longer, shorter, odd hex, non-hex, empty sides, double slash, over-long) x 2 "
              "actions against 9 peers (v4, mapped, v6, absent) x 12 randoms (absent, empty, short, 32 bytes), random rule lists of "
              "length 2..5 (thorough ..12), both through RulesEngine::evaluate and Core::evaluate_connection_rules; rules files "
-             "through the real Settings deserialiser; real Core::listen probe: denied peer reads EOF before any ServerHello byte",
+             "through the real Settings deserialiser; real Core::listen probe: denied peer reads EOF before any ServerHello byte."
+             " Live part (suite c04live, wall clock): 9 (thorough 25) rule lists (loopback and foreign CIDRs, IPv4-mapped CIDRs, "
+             "bitwise random patterns, malformed entries) on the real Core::listen, alternately bound to 127.0.0.1 and to the dual-stack "
+             "[::] (where the IPv4 client arrives as ::ffff:127.0.0.1); 8 TCP clients per list send a real ClientHello carrying a chosen "
+             "random and see a ServerHello or the end of the stream; 5 (10) quiche clients per list complete the QUIC handshake and ask "
+             "for a health check (served, or dropped before any request); the verdict is compared with the model for peer 127.0.0.1 "
+             "and the random actually used",
         explanation="theorems first_match_wins, default_allow, fail_closed_without_random, prefix/mask semantics, "
                     "malformed_never_matches, mapped_peer_eq_v4_peer, deny_precedes_handshake about TT/Model/Rules.lean",
         trusted=["ipnet CIDR parsing and hex::decode (the harness passes parsed CIDRs to the model; hex decoding is modelled)",
-                 "accept-path ordering is a hand transcription of core.rs, tied by the live listener probe (TCP only; QUIC path read only)"],
+                 "accept-path ordering is a hand transcription of core.rs, tied by the live listener suites (TCP and QUIC)"],
         assumptions=["QUIC: rules are evaluated after the QUIC handshake completes but before any HTTP/3 codec exists, as the property states"],
     ),
     "C12": dict(
